@@ -39,6 +39,8 @@ func main() {
 		raceMain(os.Args[2:])
 	case "lock":
 		lockMain(os.Args[2:])
+	case "batchvis":
+		batchvisMain(os.Args[2:])
 	case "collide":
 		collideMain(os.Args[2:])
 	default:
